@@ -21,6 +21,7 @@ from decimal import Decimal
 from typing import Iterable, List, Sequence
 
 import numpy as np
+import sympy
 
 import xir
 
@@ -307,7 +308,7 @@ def to_xir(prog: Program, **kwargs) -> xir.Program:
                     else:
                         symbolic_func = a.copy()
                         for s in symbolic_func.free_symbols:
-                            symbolic_func = symbolic_func.subs(s, s.name)
+                            symbolic_func = symbolic_func.subs(s, sympy.Symbol(s.name))
                         a = str(symbolic_func)
 
                 elif isinstance(a, str):
